@@ -1556,8 +1556,17 @@ def stream_hardening(ctx):
                 iop.one_body_tensor[1, 0] = numpy.conj(v)
                 iop.two_body_tensor[0, 1, 1, 0] = 1.25
                 fresh_iop = of.InteractionOperator(const, iop.one_body_tensor.copy(), iop.two_body_tensor.copy())
-                ok1, Qa = call(st, 'jw(edited InteractionOperator)', case, lambda: jw(iop))
-                ok2, Qf = call(st, 'jw(fresh InteractionOperator)', case, lambda: jw(fresh_iop))
+                if kind in ('clongdouble', 'longdouble'):
+                    # scalars of these dtypes are not accepted as QubitOperator coefficients by the unmodified tree:
+                    # whether a transform raises depends on which entries are non-zero, so the edited calls are probes
+                    ok1, Qa = soft(st, 'jw(edited InteractionOperator):' + kind, lambda: jw(iop))
+                    ok2, Qf = soft(st, 'jw(fresh InteractionOperator):' + kind, lambda: jw(fresh_iop))
+                    if ok1 != ok2:
+                        st.violate('jordan_wigner accepts an InteractionOperator edited in place but not a fresh equal one '
+                                   '(or vice versa)', case, {})
+                else:
+                    ok1, Qa = call(st, 'jw(edited InteractionOperator)', case, lambda: jw(iop))
+                    ok2, Qf = call(st, 'jw(fresh InteractionOperator)', case, lambda: jw(fresh_iop))
                 st.count('state:edited-in-place-then-requeried')
                 if ok1 and ok2 and canon_op_json(enc_op('qubit', Qa.terms)) != canon_op_json(enc_op('qubit', Qf.terms)):
                     st.violate('jordan_wigner of an InteractionOperator edited in place differs from a fresh one', case, {})
@@ -2117,7 +2126,13 @@ def stream_flag_cross(ctx):
                                 st.violate('%s: positional and keyword calls differ' % stem, other[0], {})
                     # (v) plane-wave and dual basis are unitarily equivalent
                     pwv = results.get('plane_wave_hamiltonian(plane_wave=True, positional)')
-                    if pwv and b and n_orb <= 8:
+                    # (not for non-orthogonal cells: there the position-space Hamiltonian is not the Fourier transform
+                    # of the momentum-space one when a grid length is even — known finding C13-jellium-sheared-even,
+                    # which belongs to property C13, not to the Jordan-Wigner statements of C04)
+                    orthogonal = bool(np.allclose(cell, np.diag(np.diag(cell))))
+                    if pwv and b and n_orb <= 8 and not orthogonal:
+                        st.count('spectrum comparison skipped: non-orthogonal cell (C13 known finding)')
+                    if pwv and b and n_orb <= 8 and orthogonal:
                         st.float_comparisons += 1
                         e1 = np.linalg.eigvalsh(get_sparse_operator(pwv[1], n_qubits=n_orb).toarray())
                         e2 = np.linalg.eigvalsh(get_sparse_operator(b[1], n_qubits=n_orb).toarray())
